@@ -212,8 +212,41 @@ def strkey(v, st=None):
     specification function sees of it): a function of length and content"""
     f = ops.uf('strkey', z3.ArraySort(I, I), I, I)
     if st is not None:
-        st.assume(strkey_axiom())
+        try:
+            st.assume(strkey_axiom(), definitional=True)
+        except TypeError:
+            st.assume(strkey_axiom())
     return f(v.lv[('s',)], v.lv[('n',)])
+
+
+def strkey_packed(v, st):
+    """key of a byte string: for a string whose length is a known small constant the key is
+    also an injective function of its bytes (equal to the abstract value), so that equality and
+    disequality of such keys follow from the bytes without quantifier reasoning"""
+    t = strkey(v, st)
+    if st is None:
+        return t
+    kt = getattr(st, 'keyterms', None)
+    if kt is not None and all(not t.eq(x) for x in kt):
+        kt.append(t)
+        for q in getattr(st, 'keyfacts', []):
+            st.assume(z3.substitute_vars(q.body(), t))
+    n = v.lv[('n',)]
+    c = ops.const_val(n)
+    if c is None:
+        cx = getattr(st, 'cx', None)
+        c = cx.implied_const(n) if cx is not None and hasattr(cx, 'implied_const') else None
+    if c is None or c < 0 or c > 40:
+        return t
+    a = v.lv[('s',)]
+    args = [z3.Select(a, i) for i in range(c)]
+    f = ops.uf('strpack_%d' % c, *([I] * c + [I]))
+    p = f(*args) if c > 0 else ops.uf('strpack_0', I)()
+    st.assume(p == t)
+    st.assume(ops.uf('strpack_len', I, I)(p) == c)
+    for i, x in enumerate(args):
+        st.assume(ops.uf('strpack_%d_inv%d' % (c, i), I, I)(p) == x)
+    return t
 
 
 _STRKEY_AX = []
@@ -250,7 +283,7 @@ def key_term(types, v, st=None):
     if args is None:
         # strings etc.: congruence only
         if k == 'string':
-            return strkey(v, st)
+            return strkey_packed(v, st)
         raise OutOfSubset('map key of kind ' + k)
     name = 'pack_%d' % types.typeid(types.under(v.t))
     f = ops.uf(name, *([I] * len(args) + [I]))
